@@ -32,7 +32,8 @@ CONSTANTS Seed,        \* integer folded into every data set (VERIF_SEED)
           Orders,      \* Hermite polynomial counts in scope, e.g. {5, 20, 40}
           RawSets,     \* one-variable raw data sets in scope, subset of {"skew","ties","tsel"}
           MultiSets,   \* multi-variable data sets in scope, subset of {"m1","m2","m3"}
-          RotElems     \* rotation elements in scope (ids, see Rot below)
+          RotElems,    \* rotation elements in scope (ids, see Rot below)
+          RCoefs       \* change-of-support coefficients in scope, in percent (100 = point support), e.g. {100, 90, 70, 50}
 
 NA == -999              \* token of the undefined value
 
@@ -62,7 +63,8 @@ AccAlg   == -900      \* matrix identities of the fitted state, Hermite orthonor
 \* sum of psi_n H_n(y) recomputed from the public coefficients against transformToRawValue: an alternating
 \* series of up to 40 terms, cancellation measured 1.4e-9 of the spread at order 40
 AccSeries == -600
-AlgAcc(name) == IF name = "psi-explains" THEN AccSeries ELSE AccAlg
+\* variance -> r -> variance: AAnam::invertVariance stops its dichotomy at |variance - target| < 1e-8 (absolute)
+AlgAcc(name) == IF name \in {"psi-explains", "variance->r->variance", "variance->r"} THEN AccSeries ELSE AccAlg
 \* normal scores: y = G^-1(k / (n+1)); the rank k is recovered as G(y) (n+1), to be an integer within 1e-3
 \* (measured 2.4e-7, the accuracy of the library's inverse Gaussian cdf)
 AccRank == -300
@@ -185,8 +187,14 @@ BaseSets(kind) == CASE kind \in {"AH", "AE"} -> RawSets \cup {"g"}
                     [] kind = "NS" -> RawSets
                     [] kind = "ROT" -> {"p2", "p3"}
 
-NoFit == [data |-> "?", opt |-> -1]     \* Unfitted
-NoObj == [data |-> "none", opt |-> -2]  \* the copy does not exist yet
+\* Fitted state = (data id, option, r).  r is the change-of-support coefficient in percent: 100 for every kind
+\* but the Hermite anamorphosis, whose state machine has the action "support" (AnamHermite::updatePointToBlock,
+\* anamPointToBlock, setRCoef, constructor argument): the coefficients become psi_n r^n, the mean is kept.  r is an
+\* option of the object like the polynomial count: it survives a re-fit, a copy carries it.  The round-trip laws
+\* hold in EVERY state (data, option, r).  (AnamDiscreteDD / AnamDiscreteIR also change support but offer no
+\* raw <-> Gaussian transform at all -- hasGaussian() is false -- so there is no inverse pair to state for them.)
+NoFit == [data |-> "?", opt |-> -1, r |-> 100]     \* Unfitted
+NoObj == [data |-> "none", opt |-> -2, r |-> 100]  \* the copy does not exist yet
 
 \* the two sides of each kind
 SideIn(kind, dir) == CASE kind \in {"AH", "AE"} -> (IF dir = "fwd" THEN "raw" ELSE "gauss")
@@ -223,11 +231,13 @@ FitNvar(kind, f) == IF kind = "ROT" THEN Rot(f.opt).dim ELSE IF kind \in {"PCA",
 \* steps: [op, who, data, opt, src]
 FitStep(d, o) == [op |-> "fit", who |-> "o", data |-> d, opt |-> o, src |-> NoRef]
 CopyStep == [op |-> "copy", who |-> "c", data |-> "", opt |-> 0, src |-> NoRef]
+SupportStep(d, r) == [op |-> "support", who |-> "o", data |-> d, opt |-> r, src |-> NoRef]   \* d = data the object is fitted on
 ApplyStep(dir, who, r) == [op |-> dir, who |-> who, data |-> "", opt |-> 0, src |-> r]
 
 StepEnabled(kind, st, s) ==
   CASE s.op = "fit" -> HasObject(kind) /\ s.data \in FitSets(kind) /\ s.opt \in OptsOf(kind)
     [] s.op = "copy" -> HasObject(kind) /\ IsFitted(st.obj) /\ st.cpy = NoObj
+    [] s.op = "support" -> kind = "AH" /\ IsFitted(st.obj) /\ s.opt \in RCoefs /\ s.opt # st.obj.r /\ s.data = st.obj.data
     [] s.op \in {"fwd", "inv"} ->
          /\ s.src \in Refs(kind, st)
          /\ IF kind = "NS" THEN s.op = "fwd" /\ s.who = "-"
@@ -237,7 +247,8 @@ StepEnabled(kind, st, s) ==
     [] OTHER -> FALSE
 
 DoStep(kind, st, s) ==
-  CASE s.op = "fit" -> [st EXCEPT !.obj = [data |-> s.data, opt |-> s.opt]]      \* overwrites the whole state
+  CASE s.op = "fit" -> [st EXCEPT !.obj = [data |-> s.data, opt |-> s.opt, r |-> st.obj.r]]   \* overwrites the whole fitted state
+    [] s.op = "support" -> [st EXCEPT !.obj.r = s.opt]
     [] s.op = "copy" -> [st EXCEPT !.cpy = st.obj]
     [] OTHER -> [st EXCEPT !.arrs = Append(st.arrs,
                     [base |-> RefBase(st, s.src),
@@ -248,6 +259,7 @@ DoStep(kind, st, s) ==
 StepAlphabet(kind, st) ==
      {FitStep(d, o) : d \in FitSets(kind), o \in OptsOf(kind)}
 \cup {CopyStep}
+\cup (IF kind = "AH" /\ IsFitted(st.obj) THEN {SupportStep(st.obj.data, r) : r \in RCoefs} ELSE {})
 \cup {ApplyStep(dir, who, r) : dir \in {"fwd", "inv"}, who \in (IF kind = "NS" THEN {"-"} ELSE {"o", "c"}), r \in Refs(kind, st)}
 
 RECURSIVE Replay(_, _, _)
@@ -303,7 +315,11 @@ SameAs(kind, st, k) ==
 (* the anamorphoses the intersection of the practical and of the absolute    *)
 (* interval (raw side for fwd, Gaussian side for inv; AnamHermite may report *)
 (* absolute bounds narrower than the practical ones when the expansion       *)
-(* oscillates in the tails); everything for PCA / MAF / normal score /        *)
+(* oscillates in the tails), both taken OPEN as the library's Interval does;  *)
+(* after a change of support the object keeps its Gaussian interval and the   *)
+(* raw values it can invert are the image of that interval by its own (block)  *)
+(* transformToRawValue, inside the raw interval it still reports;             *)
+(* everything for PCA / MAF / normal score /                                  *)
 (* rotation.  An element that is masked, undefined or outside the domain at  *)
 (* some step is never compared afterwards (the harness reports the mask,     *)
 (* TraceTransforms checks that it is not shrunk where no restriction exists). *)
